@@ -3,13 +3,13 @@
        phi s D = hub supply of D + hub value of every transfer of D in the pool or in a pending batch
    (Hub/World.v) is what must stay within the external custody.  The custody enters a hub history only
    through attested events: a deposit locks, an executed batch pays out.  PARTIAL: the theorems below
-   cover the user-facing operations (withdrawal request, deposit, refund to the hub); that batch creation /
-   cancellation only moves entries and that execution payouts stay within the executed batch's fees is
+   cover the withdrawal request, the deposit, the refund to the hub, batch creation / cancellation / timeout sweep
+   (whole BeginBlocker); that execution payouts and foreign-chain refunds stay within what was in flight is
    evaluated on every history by the monitor mon_C01 (phi never grows except by applied deposits, phi
    never exceeds the custody ledger), not proved.  One genuine defect is recorded as a known finding:
    an execution claim whose handling fails is dropped (C01/execution-event-dropped). *)
 From V Require Import Base.Prelude Base.Val Num.Arith Hub.Types Hub.Model Hub.Codec Hub.Monitor Hub.World
-     Proofs.ListX Proofs.HubInv Proofs.C04Proofs Proofs.C11Proofs Proofs.C12Proofs Proofs.C01Proofs.
+     Proofs.ListX Proofs.HubInv Proofs.C04Proofs Proofs.C11Proofs Proofs.C12Proofs Proofs.C01Proofs Proofs.C01Moves Proofs.C01Ok Proofs.C01Run.
 Local Open Scope Z_scope.
 
 (* A withdrawal request (MsgSendToExternal) never increases the potential of any asset: what is burned
@@ -52,6 +52,16 @@ Theorem C01_refund_returns_exactly_what_was_in_flight :
 Proof. exact cancel_hub_phi. Qed.
 Print Assumptions C01_refund_returns_exactly_what_was_in_flight.
 
+(* Batch creation (BeginBlocker on every chain, MsgRequestBatchTx), batch cancellation and the timeout
+   sweep only move transfers between the pool and the batches: in every state satisfying the proved
+   invariant the potential of every asset is exactly unchanged by a whole BeginBlocker and by a batch request. *)
+Theorem C01_batching_only_moves_transfers :
+  (forall p s force s' d, InvP p s -> begin_block s force = Ok s' -> phi s' d = phi s d) /\
+  (forall s chain denom s' d, Inv s -> msg_request_batch s chain denom = Ok s' -> phi s' d = phi s d) /\
+  (forall s b d, Inv s -> In b (st_batches s) -> phi (cancel_batch s b) d = phi s d).
+Proof. split; [exact begin_block_phi | split; [exact msg_request_batch_phi | exact cancel_batch_phi]]. Qed.
+Print Assumptions C01_batching_only_moves_transfers.
+
 (* a failed or malicious event leaves supply, balances, pool and batches untouched (C05_event_fails_on_its_own),
    hence phi: only an applied deposit can raise it *)
 Theorem C01_failed_event_changes_nothing :
@@ -60,6 +70,63 @@ Theorem C01_failed_event_changes_nothing :
     code = 0%N \/ (st_pool s' = st_pool s /\ st_batches s' = st_batches s /\ st_bal s' = st_bal s /\ st_supply s' = st_supply s).
 Proof. intros s chain e. unfold apply_event. destruct (handle_event _ chain e); simpl; auto. Qed.
 Print Assumptions C01_failed_event_changes_nothing.
+
+(* THE HISTORY THEOREM.  Along every history of hub operations (withdrawal requests, cancellations, batch
+   requests, attested events of all four kinds — deposits, transfers, batch executions, valset updates —
+   Begin- and EndBlockers with their timeouts, refunds, commission and fee payouts), from the empty state,
+   for every parameter set with distinct prefix-free chain ids and every consistent token table whose
+   tokens have at most 18 external decimals and non-negative commission rates:
+       hub supply of D  +  hub value of every transfer of D in the pool or in a batch
+   never exceeds the hub value minted for the attested deposits of D (floor of the locked external value).
+   Executions, refunds and payouts never add to it.  The only operations excluded are token-list changes
+   (op_wf: an environment change must keep the token list); tokens with more than 18 decimals are the
+   known findings C12/C19 (rounding in the external direction). *)
+Theorem C01_history :
+  forall p toks, tokens_ok toks -> le18 toks -> (forall t, In t toks -> 0 <= ti_comm t) -> NoDup (p_chains p) ->
+  prefix_free (b_minter :: p_chains p) ->
+  forall ops d, Forall (op_wf toks) ops ->
+    phi (run (init_state p toks) ops) d <= deposits toks ops d.
+Proof. intros p toks H1 H2 H3 H4 H5 ops d Hwf. exact (history_solvent p toks H1 H2 H3 H4 ops d H5 Hwf). Qed.
+Print Assumptions C01_history.
+
+(* and what a deposit contributes is never more than what it locked *)
+Theorem C01_history_deposit_term :
+  forall toks chain e d, tokens_ok toks ->
+    match e with
+    | EvDeposit _ coin amount _ _ _ _ | EvTransfer _ coin amount _ _ _ _ _ _ _ =>
+        0 <= amount -> forall t, ext_to_token toks chain coin = Some t -> d = ti_denom t ->
+        hub_val (dep_pos toks chain e d) <= ext_val (ti_dec t) amount
+    | _ => dep_pos toks chain e d = 0
+    end.
+Proof.
+  intros toks chain e d Htok. destruct e; try reflexivity.
+  - intros Ha t Ht Hd. unfold dep_pos, dep_value. rewrite Ht. subst d. rewrite beqb_refl.
+    apply find_some in Ht as [Hin _]. destruct (Htok t Hin) as [_ [_ Hdec]].
+    destruct (to_hub_value (ti_dec t) amount Hdec Ha) as [V1 V2].
+    assert (0 <= to_hub (ti_dec t) amount).
+    { unfold hub_val, ext_val in V2. pose proof (pow10_pos 6 ltac:(lia)). pose proof (pow10_pos (24 - ti_dec t) ltac:(lia)). nia. }
+    rewrite Z.max_r by lia. exact V1.
+  - intros Ha t Ht Hd. unfold dep_pos, dep_value. rewrite Ht. subst d. rewrite beqb_refl.
+    apply find_some in Ht as [Hin _]. destruct (Htok t Hin) as [_ [_ Hdec]].
+    destruct (to_hub_value (ti_dec t) amount Hdec Ha) as [V1 V2].
+    assert (0 <= to_hub (ti_dec t) amount).
+    { unfold hub_val, ext_val in V2. pose proof (pow10_pos 6 ltac:(lia)). pose proof (pow10_pos (24 - ti_dec t) ltac:(lia)). nia. }
+    rewrite Z.max_r by lia. exact V1.
+Qed.
+Print Assumptions C01_history_deposit_term.
+
+(* non-vacuity of the history theorem: the C04 parameters and token table meet every hypothesis *)
+Definition c01_params : params := mkParams [b_ethereum; b_minter; b_bsc; b_hub] 5000 15000 5000 60001 60001 [84]%N.
+Example C01_history_hypotheses :
+  tokens_ok c04_tokens /\ le18 c04_tokens /\ (forall t, In t c04_tokens -> 0 <= ti_comm t) /\
+  NoDup (p_chains c01_params) /\ prefix_free (b_minter :: p_chains c01_params).
+Proof.
+  split; [intros t [<-|[]]; vm_compute; repeat split; try reflexivity; discriminate|].
+  split; [intros t [<-|[]]; vm_compute; discriminate|].
+  split; [intros t [<-|[]]; vm_compute; discriminate|].
+  split; [vm_compute; repeat constructor; simpl; intuition discriminate|].
+  exact c04_real_chains_prefix_free.
+Qed.
 
 (* non-vacuity: the C04 witness history satisfies the hypotheses and its potential is accounted for *)
 Example C01_example :
